@@ -17,14 +17,18 @@ DOC = {
             "(ROUTE1); dict syntax / exists are the method semantics (SIB1); a value slot is returned only when the key is fully consumed "
             "(ABS3); every recursion of insert / delete consumes exactly the matched nibbles (ABS4h, with the helper semantics HELP); lookups "
             "have no write effect (EFF4); with pruning on, a visited node is scheduled exactly once (TS1 bundle); exception classes are unrelated (EXCH), "
-            "identity tests only against singletons (IDENT)",
+            "identity tests only against singletons (IDENT); the complete outcome tables of _set / _delete / _set_kv_node / _set_branch_node / "
+            "_delete_kv_node / _delete_branch_node / _normalize_branch_node / _persist_node: under the conditions of every return path the "
+            "returned term is the one a reference table prescribes (HEXTAB); decode_node table (DECODE); no crossed arguments (ARGX); the "
+            "batch machinery of squash_changes under pruning (AL2, ORD5, ORD3, PRUNESTATE)",
             "equality with a map model over all histories (value-level correctness of the split / merge arithmetic beyond the offsets)",
             "exception-flow with context-sensitive feasibility; abstract interpretation (Kind/Len/difference bounds) over enumerated paths; effect summaries"),
     "C02": ("embed-vs-hash threshold is len(rlp) < 32 in writer and reader, hashed children are 32 bytes (SIB9); hex-prefix flag tables "
             "equal the Yellow Paper table (SIB6); every non-blank root is hashed and stored, the blank root is the constant (ABS6); a branch "
             "is normalised on every path that may blank a slot (TS3); no empty extension path can be built (TS4); the child of every "
             "extension that is built is known to be a branch, i.e. extension+leaf/extension are merged (TS9); arity literals 16/17 agree (SIB11); "
-            "mutations start from the stored root (ROUTE1); protocol constants by value (DEFAULTS)",
+            "mutations start from the stored root (ROUTE1); protocol constants by value (DEFAULTS); outcome tables of the insert / delete "
+            "family incl. every merge / split shape (HEXTAB); decode_node (DECODE)",
             "root equality with the reference MPT; order independence",
             "writer/reader agreement by interval facts and constant propagation; typestate with Kind summaries over enumerated paths"),
     "C03": ("every visited non-blank node is in the tuple returned or passed down, per-kind stop/descend table, consumed lengths, immutable "
@@ -54,13 +58,15 @@ DOC = {
             "iff count - pending <= 0 (EFF1); pruning applied on success only, pending set reset on every exit (ORD3); squash shares no "
             "counts and does not count twice (AL2); deletes reach the real db only through the ScratchDB discipline (ORD4, PROV12); the "
             "reference recount regenerate_ref_count is the worklist table root -> skip b'' / embedded / blank hash -> += 1 -> branch: 16 "
-            "children, extension: child (RECOUNT)",
+            "children, extension: child (RECOUNT); count-table state: what __init__ installs, what ref_count reports, how a session opens, which "
+            "count entries _complete_pruning keeps, what _set_raw_node stores, every pending increment is += 1 (PRUNESTATE); outcome tables (HEXTAB)",
             "exact equality db == reachable set and counts == multiplicities as value-level facts",
             "typestate (must-pass-through, exactly-once) over enumerated paths; guard tables; effect pairing"),
     "C07": ("every db read on the entry points is covered by a KeyError -> Missing* conversion of the right type, nothing is swallowed "
             "(EXC2); constructor-argument provenance of the Missing* exceptions incl. the consumed prefix (EXC3); a child is fetched only "
             "when the key continues into it (READPATH); no fallible read follows a write that may have taken effect (ORD2); pruning "
-            "applied on success only and the pending set reset on all exits (ORD3); _PartialTraversal never escapes (EXC4)",
+            "applied on success only and the pending set reset on all exits (ORD3); _PartialTraversal never escapes (EXC4); every payload "
+            "accessor of the Missing* exceptions reads the slot its constructor fills from the same-named argument (EXCACC)",
             "convergence of retry loops",
             "exception-flow analysis; provenance of constructor arguments by symbolic terms; read/write ordering"),
     "C08": ("decision tables of _traverse_extension and of one hop of _traverse_from, (Kind, Len) summary: a non-empty residual only with "
@@ -73,14 +79,16 @@ DOC = {
     "C10": ("strictness and operands of the two successor comparisons (REL1); next() shortcut only for None (ITER1); value before "
             "children, leftmost child first, nodes() expands nearest_right(()) (ITER1); keys/values are projections of items/nodes with "
             "one filter (SIB3); key reconstruction adds exactly the traversed segment (ABS4 instances); frontier-cache coherence (PROV5); "
-            "next() without an argument means None (DEFAULTS); helper semantics (HELP)",
+            "next() without an argument means None (DEFAULTS); helper semantics (HELP); outcome tables of next / _get_key_after / "
+            "_get_next_key (ITERTAB); nodes() hands the cache's (parent, remaining path) to traverse_from in that order",
             "ordering and completeness of the emitted sequence as a value-level fact",
             "relation normal forms on provenance-identified operands; sibling projection comparison"),
     "C11": ("the receiver is never mutated and results are built on fresh sets (AL1); nearest_* return an element of the set at an index "
             "derived from bisect (PROV1); PerfectVisibility / FullDirectionalVisibility only from the emptiness / out-of-range probe (EXC7); "
             "explore = copy - old + {old+seg} unfiltered, duplicate and nested segments refused with the full provenance of the nested check "
             "(PROV6); serialize / deserialize are duals without post-processing (SIB10); Nibbles conversion of every input (VAL4); index "
-            "arithmetic of the nearest_* searches (PROV1b); the two visibility exceptions are unrelated classes (EXCH)",
+            "arithmetic of the nearest_* searches (PROV1b); the two visibility exceptions are unrelated classes (EXCH); polarity of every "
+            "refusal and the __eq__ table (FOGPOL)",
             "the antichain invariant over all reachable sets, commutation, the distance metric",
             "alias / freshness analysis; exception provenance; dual-pair comparison"),
     "C12": ("only _hash_and_save writes, db[keccak(n)] = n (EFF3); the root is assigned only from the completed _set result (ORD1); "
@@ -88,14 +96,17 @@ DOC = {
             "(ABS3b); split offsets and bit conventions (ABS4b); no kv->kv chain (TS7); a subtree is erased only under if_delete_subtrie / "
             "leaf / blank / emptied child (TS8); every NodeOverrideError refusal is reachable (LIVE); dispatch exhaustive (ABS2, SETTAB); the "
             "if_delete_subtrie flag is passed on unchanged by every recursion (FWD); no identity test on byte strings (IDENT); defaults "
-            "and protocol constants by value (DEFAULTS)",
+            "and protocol constants by value (DEFAULTS); the complete outcome tables of _set_kv_node (SPLIT: erase / match / unchanged / refuse / "
+            "split with len(K) - c and len(P) - c evaluated on a grid) and of _set_branch_node (BRTAB: rebuild / collapse over kv / other "
+            "survivor); get / set / delete routing (ROUTE2); encoder guards (VALTAB)",
             "map model including the NodeOverrideError cases; canonical shape after arbitrary histories as a value-level fact",
             "effect summaries; path ordering; decision tables; typestate; difference-bound feasibility"),
     "C13": ("decision tables of _get, _check_if_branch_exist, _get_branch, _get_trie_nodes and the cross-table of the witness walker, "
             "descent agreement with the reference reader (SIB4); slot roles (ABS3b); the node is yielded before every descent (TS6); only "
             "db-loaded values are yielded (PROV3); the verifier db is keyed by keccak (EFF3); every `return True` of if_branch_valid is "
             "dominated by the non-empty check and the read at the claimed root, no other refusal (TS6); helpers never write (EFF4); the claimed "
-            "root is what the verifier trie is opened at (FWD)",
+            "root is what the verifier trie is opened at (FWD); the public helpers pass (db, root, encode_to_bin(key)) in order to their walker "
+            "and if_branch_valid answers True; the witness adds the subtrie exactly on an exhausted key (ROUTE3)",
             "sufficiency for every key below a prefix; unforgeability (value level)",
             "decision tables by path enumeration; typestate; effect summaries"),
     "C14": ("delete is set(key, configured default), the default comes from the constructor only (PROV2); from_db forwards its "
@@ -116,7 +127,8 @@ DOC = {
             "parse_node accepts exactly branch/65, kv/>33, leaf/>1 and rejects everything else with InvalidNode (EXC6); the five node "
             "classifiers agree on every node shape, leaf/extension key duals (SIB8); nibble tables and the range / parity refusals of "
             "nibbles_to_bytes (PROV9); bit order of encode_to_bin / decode_from_bin (weights 128..1, set bit written as 1) and the header "
-            "layout of the key-path packing over the finite case split (SIB7b); type bytes and flags by value (DEFAULTS)",
+            "layout of the key-path packing over the finite case split, the header choice evaluated for padded lengths 0..28 (SIB7b); type bytes "
+            "and flags by value (DEFAULTS); validators and encoder guards as tables (VALTAB); parse_node also refuses b'' and None (EXC6)",
             "arithmetic of the packing beyond the case split (arbitrary lengths are covered by the length-mod-4 x padded-length-mod-8 split)",
             "abstract evaluation of path conditions on finite grids; writer/reader layout comparison"),
     "C17": ("the wrapped db is written only on the resumed-normally outcome of the yield, the exception outcome re-raises, the cache is "
@@ -129,7 +141,10 @@ DOC = {
             "that sink and before the first write effect (VAL1); length validation dominates its uses (VAL2); constructor guards: key_size "
             "1..32, no snapshot from a pruning trie, no ref_count for a non-pruning trie (VAL3); Nibbles has exactly three exits and every "
             "nibble-path input goes through it (VAL4); the transient pending-prune store is reset on every exit (ORD3); SparseMerkleProof "
-            "construction validates key and value before anything is stored (VAL2); default arguments by value (DEFAULTS)",
+            "construction validates key and value before anything is stored (VAL2); default arguments by value (DEFAULTS); the validators "
+            "themselves as tables - validate_is_bytes / validate_length / validate_is_node / validate_is_bin_node (VALTAB); refusals are raised as "
+            "the class named: no %-formatting with a bare parameter (VALMSG), exception names denote trie.exceptions classes (EXCORIGIN); the "
+            "ref_count guard over {None, empty, non-empty} (VAL3)",
             "nothing further within the scope stated in DESIGN.md 4.18",
             "taint-style validation dominance over enumerated paths, interprocedural forwarding"),
 }
